@@ -10,6 +10,7 @@ import AnyVecModel.Props.Hist
 import AnyVecModel.Props.Refine
 namespace AnyVec
 namespace C02
+variable {bg : Nat → Option VecSt}
 open World
 
 /-- mathematical reading of a start bound over the naturals (no wrap-around) -/
@@ -210,8 +211,8 @@ any order with the element-wise and capacity operations, from any world that sho
 fits and grown only when it does not; the one alternative is the storage's refusal of the room `splice` asks for, which
 leaves the items before `a` (leak-on-panic). -/
 theorem range_ops_refine_in_histories (cfg : Cfg) (v ty : Nat) (ops : List Refine.VOp) (w : World) (s : Refine.Spec)
-    (h : Refine.Rel v ty w s) (hall : ∀ op ∈ ops, op.Allowed s.fixed) :
-    ∃ s', Refine.Spec.Steps s ops s' ∧ Refine.Rel v ty (Refine.runOps cfg v ty w ops) s' :=
+    (h : Refine.Rel bg v ty w s) (hall : ∀ op ∈ ops, op.Allowed s.fixed) :
+    ∃ s', Refine.Spec.Steps s ops s' ∧ Refine.Rel bg v ty (Refine.runOps cfg v ty w ops) s' :=
   Refine.history_refines cfg v ty ops w s h hall
 
 /-- a `splice` whose result fits the capacity has exactly one abstract outcome -/
